@@ -131,14 +131,32 @@ def extract_machine():
     return defn("extract_machine_shape_ok", "bool", "true")
 
 
+def _norm_chars():
+    """(from, to) of _normalize_config_keys, for comparing other normalisation sites with it"""
+    f = find_func(parse(P), "_normalize_config_keys")
+    for n in ast.walk(f):
+        if isinstance(n, ast.Call) and ast.unparse(n.func) == "key.replace" and len(n.args) == 2:
+            return const_value(n.args[0]), const_value(n.args[1])
+    raise Unsupported("_normalize_config_keys: key.replace not found")
+
+
 def missing_test():
+    """identify_missing_sections: membership among the literal keys (original) or among the normalised keys (repaired)"""
     f = find_func(parse(M), "identify_missing_sections")
-    b = _body(f)
-    _expect(len(b) == 1, "identify_missing_sections: single return")
-    _unparse_is(b[0], "return [s for s in all_sections if s not in existing_config]", "identify_missing_sections")
+    b = [ast.unparse(x) for x in _body(f)]
+    frm, to = _norm_chars()
+    raw = ["return [s for s in all_sections if s not in existing_config]"]
+    normalised = [f"existing = {{str(key).replace({frm!r}, {to!r}) for key in existing_config}}",
+                  f"return [s for s in all_sections if s.replace({frm!r}, {to!r}) not in existing]"]
+    if b == raw:
+        flag = "false"
+    elif b == normalised:
+        flag = "true"
+    else:
+        raise Unsupported(f"identify_missing_sections: neither the literal-key nor the normalised-key membership test: {b}")
     g = find_func(parse(M), "_build_missing_sections_dict")
     _unparse_is(_body(g)[0], "return {name: template_sections[name] for name in missing_names if name in template_sections}", "_build_missing_sections_dict")
-    return defn("missing_test_is_not_in", "bool", "true")
+    return defn("missing_test_is_not_in", "bool", "true") + defn("missing_by_normalised_key", "bool", flag)
 
 
 def _newlines_only(s, what):
@@ -434,12 +452,20 @@ def save_and_load():
     cm = parse(C)
     st = find_func(cm, "config_set")
     sb = [ast.unparse(x) for x in _body(st)]
+    frm, to = _norm_chars()
+    norm_stmt = f"key = key.replace({frm!r}, {to!r})"
+    set_norm = len(sb) > 2 and sb[2] == norm_stmt
+    if set_norm:
+        del sb[2]
     _expect(sb[:3] == ["cfg = ctx.obj['config']", "converted_value = _convert_value_type(value)", "cfg[key] = converted_value"], f"config_set head: {sb[:3]}")
     _expect("_validate_and_report_errors(cfg)" in sb[3] and "sys.exit(1)" in sb[3], "config_set validation step")
     _expect("_save_and_report_success(cfg, key, converted_value, config_path, verbose)" in sb[4], "config_set save step")
     ve = ast.unparse(find_func(cm, "_validate_and_report_errors"))
     _expect("if not is_valid:" in ve and "sys.exit(1)" in ve, "_validate_and_report_errors")
     gb = [ast.unparse(x) for x in _body(find_func(cm, "config_get"))]
+    get_norm = len(gb) > 1 and gb[1] == norm_stmt
+    if get_norm:
+        del gb[1]
     _expect(gb == ["cfg = ctx.obj['config']", "if key not in cfg:\n    click.echo(f'Configuration key not found: {key}', err=True)\n    sys.exit(1)", "click.echo(cfg[key])"], f"config_get: {gb}")
     rs = ast.unparse(find_func(cm, "config_reset"))
     _expect("save_config(DEFAULT_CONFIG.copy(), config_path)" in rs, "config_reset")
@@ -452,7 +478,8 @@ def save_and_load():
     mainf = find_func(parse("src/cli/main.py"), "cli")
     txt = ast.unparse(mainf)
     _expect("ctx.obj['config'] = load_config(Path(config))" in txt and "ctx.obj['config_path'] = None" in txt and "sys.exit(2)" in txt, "cli group config loading")
-    return (defn("set_reject_exit", "nat", "1") + defn("get_missing_exit", "nat", "1") + defn("load_error_exit", "nat", "2")
+    return (defn("set_normalises_key", "bool", "true" if set_norm else "false") + defn("get_normalises_key", "bool", "true" if get_norm else "false")
+            + defn("set_reject_exit", "nat", "1") + defn("get_missing_exit", "nat", "1") + defn("load_error_exit", "nat", "2")
             + defn("set_msg_prefix", "string", coq_string("Set ")) + defn("set_msg_mid", "string", coq_string(" = ")))
 
 
